@@ -411,7 +411,9 @@ class SigmaString(SigmaType):
         return self.to_plain(regex=True)
 
     def __bytes__(self) -> bytes:
-        return str(self).encode()
+        # Encode the characters of the string itself, not its plain (rule source) form, which
+        # escapes plain '*' and '?' characters with backslashes.
+        return self.to_plain(regex=True).encode()
 
     def __len__(self) -> int:
         return sum(
